@@ -100,7 +100,7 @@ def extract_facts(names, repo=None):
         env["VERIF_REPO"] = repo
     for n in names:
         gen = os.path.join(LEAN, "PlzVerif", "Generated", n.upper() if re.fullmatch(r"c\d+", n) else n)
-        with Lock("go"):
+        with Lock("go-extract-" + n.lower()):
             rc, out = sh(["go", "run"] + modfile_args() + ["./extract/" + n.lower()], cwd=HARNESS, env=env, timeout=600)
         if rc != 0:
             status = "unreadable"
@@ -237,7 +237,7 @@ def build_harness(name):
     os.makedirs(BIN, exist_ok=True)
     sync_gosum()
     out = os.path.join(BIN, name)
-    with Lock("go"):
+    with Lock("go-" + os.path.basename(BIN) + "-" + name):       # per output binary: go's own cache is concurrency-safe
         rc, o = sh(["go", "build"] + modfile_args() + ["-tags", "verif", "-o", out, "./cmd/" + name], cwd=HARNESS, env=goenv(), timeout=1800)
     return rc, o, out
 
@@ -246,7 +246,7 @@ def build_plz():
     """Build the real plz binary from /repo's working tree with hooks on."""
     os.makedirs(BIN, exist_ok=True)
     out = os.path.join(BIN, "plz")
-    with Lock("go"):
+    with Lock("go-" + os.path.basename(BIN) + "-plz"):
         rc, o = sh(["go", "build", "-tags", "verif", "-o", out, "./src"], cwd=REPO, env=goenv(), timeout=3000)
     return rc, o, out
 
